@@ -182,8 +182,10 @@ def mkRegister (name : String) (size : Val) : M Val :=
   | .int k => if k < 1 then throw (.jaqal "invalid-size") else pure (.regF name size)
   | .flt d => if !d.isIntegral || d.toInt < 1 then throw (.jaqal "invalid-size") else pure (.regF name size)
   | _ =>
-    -- a constant or parameter of kind FLOAT cannot size a register
-    if isAV size && avKind size == .float then throw (.jaqal "size-kind") else pure (.regF name size)
+    -- `not isinstance(size, (int, float, AnnotatedValue))`: a register, a qubit, … cannot size a register;
+    -- nor can a constant or parameter of kind FLOAT
+    if !isAV size then throw (.jaqal "invalid-size")
+    else if avKind size == .float then throw (.jaqal "size-kind") else pure (.regF name size)
 
 def isIntLit : Val → Bool
   | .int _ => true
@@ -300,9 +302,10 @@ def dictSet {β : Type} (k : String) (v : β) : List (String × β) → List (St
 
 /-- how the memo table is keyed: as the code does today (`new`); as it did before numbers were typed in the key
 (`oldNum`: numbers compared with Python `==`, so `1` and `1.0` collide); as it did before that and before the key
-covered names inside array items (`old`); or not at all (`off`) -/
+covered names inside array items (`old`); or not at all (`off`). `noReset` is today's key without the reset of the
+table that `build_circuit` now performs whenever a `usepulses` statement loads gates. -/
 inductive KeyMode where
-  | new | oldNum | old | off
+  | new | noReset | oldNum | old | off
   deriving DecidableEq, Repr, Inhabited
 
 /-- are numbers in the argument tuple compared with Python `==` (the keys before `_make_hashable` typed them)? -/
@@ -770,7 +773,8 @@ def updateGates {β : Type} (wrap : GateDef → β) (inject : Option (List (Stri
     | _ => dictSet g.name (wrap g) acc) gates
 
 /-- the `isinstance` dispatch of `build_circuit` on the object a child was built to -/
-def stepTail (cfg : Config) (inject : Option (List (String × GateDef))) (acc : Acc) (obj : Obj) (st : St) : M Acc :=
+def stepTail (cfg : Config) (mode : KeyMode) (inject : Option (List (String × GateDef))) (acc : Acc) (obj : Obj)
+    (st : St) : M Acc :=
   match obj with
   | .val v =>
     match v with
@@ -792,7 +796,9 @@ def stepTail (cfg : Config) (inject : Option (List (String × GateDef))) (acc : 
       match cfg.imports name with
       | Option.none => throw .importErr
       | some gs =>
-        pure { acc with st := { st with gctx := updateGates GEntry.gdef inject gs st.gctx },
+        -- `self.gate_memo = GateMemoizer()`: the gates just loaded may replace definitions memoised statements use
+        pure { acc with st := { memo := if mode = .noReset then st.memo else [],
+                                gctx := updateGates GEntry.gdef inject gs st.gctx },
                         usepulses := acc.usepulses ++ [name],
                         natives := updateGates id inject gs acc.natives }
     else pure { acc with st := st, usepulses := acc.usepulses ++ [name] }
@@ -801,7 +807,7 @@ def stepTail (cfg : Config) (inject : Option (List (String × GateDef))) (acc : 
 def circuitStep (cfg : Config) (mode : KeyMode) (inject : Option (List (String × GateDef))) (fuel : Nat)
     (acc : Acc) (child : BSx) : M Acc := do
   let (obj, st) ← buildAny cfg mode fuel acc.ctx child acc.st
-  stepTail cfg inject acc obj st
+  stepTail cfg mode inject acc obj st
 
 def circuitLoop (cfg : Config) (mode : KeyMode) (inject : Option (List (String × GateDef))) (fuel : Nat) :
     Acc → List BSx → M Acc
@@ -838,6 +844,7 @@ def build (cfg : Config) (e : BSx) : M Circuit := buildWith .new cfg e
 def buildNoMemo (cfg : Config) (e : BSx) : M Circuit := buildWith .off cfg e
 def buildOldKey (cfg : Config) (e : BSx) : M Circuit := buildWith .old cfg e
 def buildOldNumKey (cfg : Config) (e : BSx) : M Circuit := buildWith .oldNum cfg e
+def buildNoReset (cfg : Config) (e : BSx) : M Circuit := buildWith .noReset cfg e
 
 /-- `reg.fundamental` over `circuit.registers.values()` (a `NamedQubit` is never fundamental) -/
 def isFundamental : Val → Bool
